@@ -303,7 +303,7 @@ def shard(prop, tier, seed, shard, nshards):
             if len(acc.failures) < 20:
                 acc.failures.append(f)
     if tier == "thorough":
-        for case in enum3(3):
+        for case in enum3(4):
             i += 1
             if i % nshards != shard:
                 continue
